@@ -78,8 +78,8 @@ def instances(tier):
         "chain3": (["v0", "v1", "v2"], [("v0", "v1"), ("v1", "v2")], 2),
         "triangle": (["v0", "v1", "v2"], [("v0", "v1"), ("v1", "v2"), ("v0", "v2")], 1),
     }
-    if not q:
-        shapes["chain4"] = (["v0", "v1", "v2", "v3"], [("v0", "v1"), ("v1", "v2"), ("v2", "v3")], 3)
+    # (the 4-chain under ALL interleavings exceeds the 600 000-state cap after 20 minutes per instance: it is explored delay-bounded
+    # in chain4_family instead)
     for name, (names, edges, diam) in shapes.items():
         for d in (2, 3):
             if d == 3 and (q and name != "chain3" or name == "chain4"):
@@ -98,6 +98,15 @@ def instances(tier):
     out.append(({"vars": {v: [0, 1] for v in names}, "cons": [{"name": f"c{i}", "scope": list(e), "table": [[100 if a == b else 0 for b in range(2)] for a in range(2)]} for i, e in enumerate(edges)], "mode": "min"}, {"max_distance": 2, "infinity": 100}, 5 if q else H))
     # a too small max_distance is outside the property (max_distance at or above the diameter): not generated
     return out
+
+
+def chain4_family(tier):
+    """Thorough only: 4-chain colouring (2 colours), max_distance 3 and 4, delay-bounded (first / last + <= 3 departures)."""
+    if tier == "quick":
+        return []
+    names, edges = ["v0", "v1", "v2", "v3"], [("v0", "v1"), ("v1", "v2"), ("v2", "v3")]
+    spec = {"vars": {v: [0, 1] for v in names}, "cons": [{"name": f"c{i}", "scope": list(e), "table": coloring(e, 2)} for i, e in enumerate(edges)], "mode": "min"}
+    return [(spec, {"max_distance": md, "infinity": INF}, 5, sched, None) for md in (3, 4) for sched in ("dev:first:3", "dev:last:3")]
 
 
 def ring_family(tier):
@@ -161,17 +170,17 @@ def run(ctx):
     items = instances(ctx.tier)
     ctx.rule = (
         "explicit-state search of the real DBA computations over a virtual per-channel-FIFO network on small CSPs with hard constraints at "
-        "infinity=10000 (and, for the pair and the 3-chain, the non-default infinity=100): the pair with ALL 16 {0,infinity} tables, graph colouring on the 3-chain, the triangle (thorough: the 4-chain) with 2 and "
+        "infinity=10000 (and, for the pair and the 3-chain, the non-default infinity=100): the pair with ALL 16 {0,infinity} tables, graph colouring on the 3-chain, the triangle with 2 and "
         f"3 colours, max_distance in {{diameter, diameter+1}}; ALL start orders, delivery interleavings, initial values and tie picks with state "
         f"caching, horizon {H} cycles per computation (4-5 for the larger ones). Oracle evaluated inside every finished() notification: the "
         "values held by all computations at that moment violate no constraint. Plus the 5-cycle (2 colours, 3 on one variable, max_distance 2 = "
         "diameter), delay-bounded: the canonical 'first' schedule (thorough: also 'last' and alternating) and every execution with at most 2 "
-        "departures from it, for every initial assignment (one shard each), horizon 3 (thorough 5) cycles. evaluations = instances / shards"
+        "departures from it, for every initial assignment (one shard each), horizon 3 (thorough 5) cycles; thorough also the 4-chain, delay-bounded with <= 3 departures. evaluations = instances / shards"
     )
     ctx.assumptions = ["Network model: one FIFO channel per ordered pair of computations.", "State merging by canonical form; the log of finished() observations is part of the state.",
                        "Safety property checked up to a cycle horizon; weights grow without bound on unsatisfiable instances."]
     items.sort(key=lambda it: -(len(it[0]["vars"]) * 10 + len(it[0]["vars"]["v0"]) * 5 + it[2]))
-    items = items + ring_family(ctx.tier)
+    items = items + ring_family(ctx.tier) + chain4_family(ctx.tier)
     ctx.pmap(shard, items)
     if ctx.part.counters.get("capped_instances"):
         ctx.exhaustive = False
